@@ -876,4 +876,780 @@ theorem elemRead_integer_sound (env : Env F) (hcfg : env.lex.intReportsFail = tr
       subst he
       exact elemCore_integer_sound env hcfg l c t sk hc e' v' s1' hcore hne
 
+/-! ### the element's part, mid-stream: ENUMERATION / BOOLEAN / LOGICAL, BINARY -/
+
+theorem not_lt_incomplete_quiet {e : Sev} (h : ¬ e.toInt < Sev.incomplete.toInt) : Quiet e := by
+  cases e <;> simp [Quiet, Sev.toInt] at h ⊢
+
+/-- the loop's `CheckRemainingInput` behind a reader: when the round reports nothing worse than INCOMPLETE, the check handed
+    the reader's severity on unchanged, and that severity was itself not worse than INCOMPLETE -/
+theorem cri_kept (cfg : LexCfg) (s1 : IStream) (e : Sev)
+    (hne : ¬ (checkRemainingInput cfg (some attrDelims) s1 e).2.toInt < Sev.incomplete.toInt) :
+    (checkRemainingInput cfg (some attrDelims) s1 e).2 = e ∧ ¬ e.toInt < Sev.incomplete.toInt := by
+  have h1 : Sev.incomplete.toInt = 1 := rfl
+  rcases cri_sev cfg (some attrDelims) s1 e with hx | hx
+  · exact ⟨hx, by rw [hx] at hne; exact hne⟩
+  · omega
+
+/-- a flag-free stream behind a value, no error from `CheckRemainingInput`: separators were skipped, the stream rests at
+    its end or in front of a delimiter -/
+theorem cri_after_value (cfg : LexCfg) (l r : List Byte) (sk : Bool)
+    (hne : NoErr (checkRemainingInput cfg (some attrDelims) (G l r sk) Sev.null).2) :
+    ∃ sp3, r = sp3 ++ (checkRemainingInput cfg (some attrDelims) (G l r sk) Sev.null).1.right ∧ Between cfg sp3 ∧
+      AtDelimOrEnd cfg (checkRemainingInput cfg (some attrDelims) (G l r sk) Sev.null).1.right := by
+  rcases (cri_char cfg (G l r sk) Sev.null rfl).2 hne with ⟨hx, _⟩ | ⟨_, sp3, hb3, hrr, _, hat3⟩
+  · cases hx
+  · exact ⟨sp3, hrr, hb3, hat3⟩
+
+/-- `SDAI_Enum::STEPread` and the loop's `CheckRemainingInput` standing anywhere in a stream, in front of a character that is
+    neither blank nor a delimiter: nothing worse than INCOMPLETE reported ⇒ `.` name `.` of a declared item was read (any
+    case), then separators; severity NULL; the stream rests at its end or in front of a delimiter -/
+theorem enum_round_sound (cfg : LexCfg) (k : EnumKind) (l : List Byte) (c : Byte) (t : List Byte) (sk : Bool)
+    (hc : isSpace c = false) (h44 : c ≠ 44) (h41 : c ≠ 41)
+    (hne : ¬ (checkRemainingInput cfg (some attrDelims) (enumRead cfg k false (G l (c :: t) sk) .null).2.1
+              (enumRead cfg k false (G l (c :: t) sk) .null).2.2).2.toInt < Sev.incomplete.toInt) :
+    (checkRemainingInput cfg (some attrDelims) (enumRead cfg k false (G l (c :: t) sk) .null).2.1
+        (enumRead cfg k false (G l (c :: t) sk) .null).2.2).2 = .null ∧
+    ∃ name i sp3, c :: t = 46 :: (name ++ 46 :: (sp3 ++ (checkRemainingInput cfg (some attrDelims)
+        (enumRead cfg k false (G l (c :: t) sk) .null).2.1 (enumRead cfg k false (G l (c :: t) sk) .null).2.2).1.right)) ∧
+      name ≠ [] ∧ name.all pw = true ∧ findName k.table (name.map toUpper) = some i ∧
+      (cfg.logicalRejectsUnset = true → k.isUnsetIdx i = false) ∧ Between cfg sp3 ∧
+      (enumRead cfg k false (G l (c :: t) sk) .null).1 = some i ∧
+      AtDelimOrEnd cfg (checkRemainingInput cfg (some attrDelims) (enumRead cfg k false (G l (c :: t) sk) .null).2.1
+        (enumRead cfg k false (G l (c :: t) sk) .null).2.2).1.right := by
+  obtain ⟨hkeep, hq⟩ := cri_kept cfg _ _ hne
+  have hquiet : Quiet (readEnum cfg k true (G l (c :: t) sk) .null).2.2 := by
+    have := not_lt_incomplete_quiet hq
+    simpa [enumRead] using this
+  obtain ⟨name, rest, i, hsplit, hn1, hn2, hfind, hset, hrd⟩ := readEnum_noerr cfg k l c t sk hc h44 h41 hquiet
+  have henum : enumRead cfg k false (G l (c :: t) sk) .null =
+      (some i, G (46 :: (name.reverse ++ 46 :: l)) rest sk, .null) := by
+    simp [enumRead, hrd]
+  rw [henum] at hkeep hne ⊢
+  simp only at hkeep hne ⊢
+  have hnoerr : NoErr (checkRemainingInput cfg (some attrDelims) (G (46 :: (name.reverse ++ 46 :: l)) rest sk) Sev.null).2 := by
+    rw [hkeep]; exact Or.inl rfl
+  obtain ⟨sp3, hr3, hb3, hat3⟩ := cri_after_value cfg _ rest sk hnoerr
+  exact ⟨hkeep, name, i, sp3, by rw [hsplit]; exact congrArg (fun z => 46 :: (name ++ 46 :: z)) hr3, hn1, hn2, hfind, hset, hb3, rfl, hat3⟩
+
+/-- `ReadBinary` in front of a non-blank character reports NULL or WARNING-or-worse, never INCOMPLETE -/
+theorem readBinary_sev (cfg : LexCfg) (l : List Byte) (c : Byte) (t : List Byte) (sk : Bool) (hc : isSpace c = false) :
+    (readBinary cfg true (G l (c :: t) sk) .null).2.2 = .null ∨ (readBinary cfg true (G l (c :: t) sk) .null).2.2.toInt ≤ 0 := by
+  have hw : ∀ e : Sev, (e.greater Sev.warning).toInt ≤ 0 := fun e => greater_toInt_le' e Sev.warning
+  have hwi : ∀ (e : Sev) (b : Bool), (e = .null ∨ e.toInt ≤ 0) → ((e.warnIf b) = .null ∨ (e.warnIf b).toInt ≤ 0) := by
+    intro e b he
+    cases b with
+    | false => simpa [Sev.warnIf] using he
+    | true => right; simpa [Sev.warnIf] using hw e
+  simp only [readBinary, ws_good0 _ _ _ _ hc, IStream.good, Bool.not_false, Bool.and_self, Bool.not_true, Bool.false_eq_true, if_false]
+  split
+  · exact hwi _ _ (hwi _ _ (Or.inl rfl))
+  · exact Or.inr (hw Sev.null)
+
+/-- `SDAI_Binary::STEPread` and the loop's `CheckRemainingInput` standing anywhere in a stream, in front of a non-blank
+    character: nothing worse than INCOMPLETE reported ⇒ `"` hexadecimal digits `"` was read, then separators; severity
+    NULL; the stream rests at its end or in front of a delimiter -/
+theorem binary_round_sound (cfg : LexCfg) (hcfg : cfg.binaryRejectsEmpty = true) (l : List Byte) (c : Byte) (t : List Byte) (sk : Bool)
+    (hc : isSpace c = false)
+    (hne : ¬ (checkRemainingInput cfg (some attrDelims) (readBinary cfg true (G l (c :: t) sk) .null).2.1
+              (readBinary cfg true (G l (c :: t) sk) .null).2.2).2.toInt < Sev.incomplete.toInt) :
+    (checkRemainingInput cfg (some attrDelims) (readBinary cfg true (G l (c :: t) sk) .null).2.1
+        (readBinary cfg true (G l (c :: t) sk) .null).2.2).2 = .null ∧
+    ∃ hex sp3, c :: t = 34 :: (hex ++ 34 :: (sp3 ++ (checkRemainingInput cfg (some attrDelims)
+        (readBinary cfg true (G l (c :: t) sk) .null).2.1 (readBinary cfg true (G l (c :: t) sk) .null).2.2).1.right)) ∧
+      hex ≠ [] ∧ hex.all isXDigit = true ∧ Between cfg sp3 ∧ (readBinary cfg true (G l (c :: t) sk) .null).1 = hex ∧
+      AtDelimOrEnd cfg (checkRemainingInput cfg (some attrDelims) (readBinary cfg true (G l (c :: t) sk) .null).2.1
+        (readBinary cfg true (G l (c :: t) sk) .null).2.2).1.right := by
+  have h1 : Sev.incomplete.toInt = 1 := rfl
+  obtain ⟨hkeep, hq⟩ := cri_kept cfg _ _ hne
+  have hnoerr0 : NoErr (readBinary cfg true (G l (c :: t) sk) .null).2.2 := by
+    rcases readBinary_sev cfg l c t sk hc with hx | hx
+    · exact Or.inl hx
+    · omega
+  obtain ⟨hex, rest, hsplit, hx1, hx2, hrd⟩ := readBinary_noerr cfg hcfg l c t sk hc hnoerr0
+  have hrd' : readBinary cfg true (G l (c :: t) sk) .null = (hex, G (34 :: (hex.reverse ++ 34 :: l)) rest sk, .null) := hrd
+  rw [hrd'] at hkeep hne ⊢
+  simp only at hkeep hne ⊢
+  have hnoerr : NoErr (checkRemainingInput cfg (some attrDelims) (G (34 :: (hex.reverse ++ 34 :: l)) rest sk) Sev.null).2 := by
+    rw [hkeep]; exact Or.inl rfl
+  obtain ⟨sp3, hr3, hb3, hat3⟩ := cri_after_value cfg _ rest sk hnoerr
+  exact ⟨hkeep, hex, sp3, by rw [hsplit]; exact congrArg (fun z => 34 :: (hex ++ 34 :: z)) hr3, hx1, hx2, hb3, rfl, hat3⟩
+
+/-! ### the element's part, mid-stream: STRING -/
+
+/-- garbage in front of the delimiter makes `CheckRemainingInput` raise WARNING or worse, whatever the severity was -/
+theorem cri_garbage_le0 (cfg : LexCfg) (l : List Byte) (c : Byte) (t : List Byte) (f sk : Bool) (e : Sev)
+    (hc : isSpace c = false) (hd : delimAt cfg attrDelims c = false) (h47 : c ≠ 47) :
+    (checkRemainingInput cfg (some attrDelims) { left := l, right := c :: t, eof := false, fail := f, bad := false, skipws := sk } e).2.toInt ≤ 0 := by
+  have hw : (e.greater Sev.warning).toInt ≤ 0 := greater_toInt_le' e Sev.warning
+  have hi : (e.greater Sev.inputError).toInt ≤ 0 := by
+    have := greater_toInt_le' e Sev.inputError
+    have h1 : Sev.inputError.toInt = -1 := rfl
+    omega
+  have hstop := sepSkip_stop cfg l [] c t sk (by simp) hc h47
+  simp only [List.nil_append, List.reverse_nil] at hstop
+  simp only [checkRemainingInput, IStream.clear, Bool.false_eq_true, if_false, hstop, peekC_good, hd]
+  split
+  · exact hw
+  · exact hi
+
+/-- `SDAI_String::STEPread` and the loop's `CheckRemainingInput` standing anywhere in a stream, in front of a character that
+    is neither blank, `/` nor a delimiter: nothing worse than INCOMPLETE reported ⇒ a literal closed by the automaton of
+    `GetLiteralStr` was read (`isStringLenient`), then separators; severity NULL; the value is the literal; the stream
+    rests at its end or in front of a delimiter.  (Something that is not a literal is answered INCOMPLETE by the reader —
+    a severity the loop does not hand on — and then reported as garbage by `CheckRemainingInput`.) -/
+theorem string_round_sound (cfg : LexCfg) (l : List Byte) (c : Byte) (t : List Byte) (sk : Bool)
+    (hc : isSpace c = false) (hd : delimAt cfg attrDelims c = false) (h47 : c ≠ 47)
+    (hne : ¬ (checkRemainingInput cfg (some attrDelims) (stringRead (G l (c :: t) sk) .null).2.1
+              (stringRead (G l (c :: t) sk) .null).2.2).2.toInt < Sev.incomplete.toInt) :
+    (checkRemainingInput cfg (some attrDelims) (stringRead (G l (c :: t) sk) .null).2.1
+        (stringRead (G l (c :: t) sk) .null).2.2).2 = .null ∧
+    ∃ tok sp3, c :: t = tok ++ sp3 ++ (checkRemainingInput cfg (some attrDelims) (stringRead (G l (c :: t) sk) .null).2.1
+        (stringRead (G l (c :: t) sk) .null).2.2).1.right ∧
+      isStringLenient tok = true ∧ Between cfg sp3 ∧ (stringRead (G l (c :: t) sk) .null).1 = tok ∧
+      AtDelimOrEnd cfg (checkRemainingInput cfg (some attrDelims) (stringRead (G l (c :: t) sk) .null).2.1
+        (stringRead (G l (c :: t) sk) .null).2.2).1.right := by
+  have h1 : Sev.incomplete.toInt = 1 := rfl
+  by_cases hq : c = 39
+  · subst hq
+    obtain ⟨m, hm1, hm2, hm3, hm4, hm5, hm6⟩ := litLoop_spec [39] true t (by simp)
+    simp only [stringRead, IStream.setSkipws, getLiteralStr, ws_good0 _ _ _ _ hc, IStream.good, Bool.not_false, Bool.and_self,
+      Bool.not_true, Bool.false_eq_true, if_false, beq_self_eq_true, if_true] at hne ⊢
+    generalize hll : litLoop [39] true t = ll at hne hm1 hm2 hm3 hm4 hm5 hm6 ⊢
+    obtain ⟨srev, rest, esc, hitEnd⟩ := ll
+    simp only at hne hm1 hm2 hm3 hm4 hm5 hm6 ⊢
+    subst hm2
+    have hne' : (m.reverse ++ [39]).reverse.isEmpty = false := by simp
+    simp only [hne', Bool.false_eq_true, if_false] at hne ⊢
+    obtain ⟨hkeep, hq⟩ := cri_kept cfg _ _ hne
+    cases esc with
+    | true =>
+      exfalso
+      simp only [if_true] at hq
+      have := greater_toInt_le' Sev.null Sev.inputError
+      have h2 : Sev.inputError.toInt = -1 := rfl
+      omega
+    | false =>
+      simp only [Bool.false_eq_true, if_false] at hkeep hne ⊢
+      have hmne : m ≠ [] := by
+        intro hm; have := hm6 hm; cases this
+      have hnoerr : NoErr (checkRemainingInput cfg (some attrDelims)
+          { left := m.reverse ++ [39] ++ l, right := rest, eof := hitEnd, fail := false, bad := false, skipws := false } Sev.null).2 := by
+        rw [hkeep]; exact Or.inl rfl
+      have hch := (cri_char cfg { left := m.reverse ++ [39] ++ l, right := rest, eof := hitEnd, fail := false, bad := false, skipws := false }
+        Sev.null rfl).2 hnoerr
+      have hlast : m.getLast? = some 39 := by
+        have := hm3 rfl
+        cases hmr : m.reverse with
+        | nil => simp at hmr; exact absurd hmr hmne
+        | cons a u =>
+          rw [hmr] at this
+          simp at this
+          have : m = (a :: u).reverse := by rw [← hmr]; simp
+          rw [this]; simp; assumption
+      have hlen : isStringLenient ((m.reverse ++ [39]).reverse) = true := by
+        simp [isStringLenient, hlast]
+      refine ⟨hkeep, (m.reverse ++ [39]).reverse, ?_⟩
+      generalize checkRemainingInput cfg (some attrDelims)
+        { left := m.reverse ++ [39] ++ l, right := rest, eof := hitEnd, fail := false, bad := false, skipws := false } Sev.null = X at hch hkeep hnoerr ⊢
+      rcases hch with ⟨heof, hsame⟩ | ⟨heof, sp2, hs2, hrr, _, hat⟩
+      · simp only at heof
+        subst heof
+        have hre : rest = [] := hm4 rfl
+        subst hre
+        refine ⟨[], ?_, hlen, Between.nil cfg, rfl, ?_⟩
+        · rw [hsame]; simp [hm1]
+        · rw [hsame]; exact Or.inl rfl
+      · simp only at hrr
+        refine ⟨sp2, ?_, hlen, hs2, rfl, hat⟩
+        rw [hm1, hrr]; simp
+  · exfalso
+    have hq' : (c == 39) = false := by simpa using hq
+    simp only [stringRead, IStream.setSkipws, getLiteralStr, ws_good0 _ _ _ _ hc, IStream.good, Bool.not_false, Bool.and_self,
+      Bool.not_true, Bool.false_eq_true, if_false, hq', List.isEmpty_nil, if_true] at hne
+    have := cri_garbage_le0 cfg l c t false sk (Sev.null.greater Sev.incomplete) hc hd h47
+    omega
+
+/-! ### the element's part, mid-stream: REAL -/
+
+/-- `ReadReal` standing anywhere in a stream, in front of a non-blank character (a configuration in which it reports a failed
+    conversion; while it reports only collected characters, the character is neither `/` nor a delimiter): when nothing is
+    reported, what it took is a token of the grammar `real` — no leniency survives — whose denotation converts, then
+    separators; the value is that double, and the stream rests at its end or in front of a delimiter -/
+theorem readReal_sound (ops : FloatOps F) (cfg : LexCfg) (hcfg : cfg.realReportsFail = true) (l : List Byte) (c : Byte) (t : List Byte)
+    (sk : Bool) (hc : isSpace c = false)
+    (hgar : cfg.realFailUnlessBlank = false → delimAt cfg attrDelims c = false ∧ c ≠ 47)
+    (o : Option F) (s' : IStream) (e : Sev)
+    (h : readReal ops cfg (some attrDelims) (G l (c :: t) sk) .null = .ok (o, s', e)) (hne : NoErr e) :
+    ∃ tok sp2 d v, c :: t = tok ++ sp2 ++ s'.right ∧ Between cfg sp2 ∧ isReal tok = true ∧ denoteReal tok = some d ∧
+      ops.ofDecimal d = some v ∧ o = some v ∧ AtDelimOrEnd cfg s'.right := by
+  simp only [readReal, ws_good0 _ _ _ _ hc, IStream.good] at h
+  simp only [Bool.false_eq_true, if_false, Bool.not_false, Bool.and_self, Bool.not_true] at h
+  have happ := realCollect_append (c :: t)
+  have hsevs := realCollect_sev (c :: t)
+  have hshape := realCollect_null (c :: t)
+  generalize hrc : realCollect (c :: t) = rc at h happ hsevs hshape
+  obtain ⟨buf, rest, e0⟩ := rc
+  simp only at h happ hsevs hshape
+  by_cases hov : (cfg.realBuf != 0 && decide (buf.length ≥ cfg.realBuf)) = true
+  · simp [hov] at h
+  · simp only [hov, Bool.false_eq_true, if_false] at h
+    cases hconv : ops.conv (scanFloat [] buf).1 with
+    | ok v =>
+      simp only [hconv, Outcome.ok.injEq, Prod.mk.injEq] at h
+      obtain ⟨ho, hs, he⟩ := h
+      subst ho hs he
+      -- the format severity must be null
+      have hen : NoErr (Sev.null.greater e0) := by
+        rcases cri_mono cfg _ (Sev.null.greater e0) with hm | hm
+        · rw [hm] at hne; exact hne
+        · exact absurd hne hm
+      have he0 := null_greater_noerr e0 hen hsevs
+      subst he0
+      obtain ⟨sg, ip, fp, ex, hbuf, hsg, hip1, hip, hfp, hex⟩ := hshape rfl
+      subst hbuf
+      have hparse := parse_scanFloat_realText sg ip fp 69 ex hsg hip1 hip hfp (Or.inl rfl) hex
+      have hden := parse_realText sg ip fp 69 ex hsg hip1 hip hfp (Or.inl rfl) hex
+      have hof : ops.ofDecimal ⟨sg == [45], digitsVal (ip ++ fp) 0, exVal ex - (fp.length : Int)⟩ = some v := by
+        unfold FloatOps.conv at hconv
+        rw [hparse] at hconv
+        simp only at hconv
+        cases ho : ops.ofDecimal ⟨sg == [45], digitsVal (ip ++ fp) 0, exVal ex - (fp.length : Int)⟩ with
+        | none => rw [ho] at hconv; cases hconv
+        | some v' => rw [ho] at hconv; simp at hconv; rw [hconv]
+      have hch := (cri_char cfg { left := (realText sg ip fp 69 ex).reverse ++ l, right := rest, eof := rest.isEmpty, fail := false, bad := false, skipws := sk } (Sev.null.greater Sev.null) rfl).2 hne
+      generalize checkRemainingInput cfg (some attrDelims) { left := (realText sg ip fp 69 ex).reverse ++ l, right := rest, eof := rest.isEmpty, fail := false, bad := false, skipws := sk } (Sev.null.greater Sev.null) = X at hne hch ⊢
+      rcases hch with ⟨heof, hsame⟩ | ⟨heof, sp2, hsp2, hrr, _, hat⟩
+      · simp only at heof
+        have hre : rest = [] := by simpa using heof
+        subst hre
+        refine ⟨realText sg ip fp 69 ex, [], _, v, ?_, Between.nil cfg, isReal_realText sg ip fp ex hsg hip1 hip hfp hex,
+          hden, hof, rfl, ?_⟩
+        · rw [hsame]; simp [← happ]
+        · rw [hsame]; exact Or.inl rfl
+      · simp only at hrr
+        refine ⟨realText sg ip fp 69 ex, sp2, _, v, ?_, hsp2, isReal_realText sg ip fp ex hsg hip1 hip hfp hex,
+          hden, hof, rfl, hat⟩
+        rw [← happ, hrr]; simp
+    | invalid =>
+      exfalso
+      simp only [hconv, Outcome.ok.injEq, Prod.mk.injEq, hcfg, Bool.true_and] at h
+      obtain ⟨_, _, he⟩ := h
+      subst he
+      by_cases hrep : (cfg.realFailUnlessBlank || !buf.isEmpty) = true
+      · rw [hrep] at hne
+        rcases cri_mono cfg _ _ with hm | hm
+        · rw [hm] at hne; exact warnIf_true_err Sev.null hne
+        · exact hm hne
+      · have hrep' : cfg.realFailUnlessBlank = false ∧ buf = [] := by
+          cases hq : cfg.realFailUnlessBlank <;> cases buf <;> simp_all
+        obtain ⟨hq, hb⟩ := hrep'
+        subst hb
+        simp only [List.nil_append] at happ
+        subst happ
+        exact cri_garbage cfg _ c t false sk _ hc (hgar hq).1 (hgar hq).2 hne
+    | overflow =>
+      exfalso
+      simp only [hconv, Outcome.ok.injEq, Prod.mk.injEq, hcfg, Bool.true_and] at h
+      obtain ⟨_, _, he⟩ := h
+      subst he
+      by_cases hrep : (cfg.realFailUnlessBlank || !buf.isEmpty) = true
+      · rw [hrep] at hne
+        rcases cri_mono cfg _ _ with hm | hm
+        · rw [hm] at hne; exact warnIf_true_err Sev.null hne
+        · exact hm hne
+      · have hrep' : cfg.realFailUnlessBlank = false ∧ buf = [] := by
+          cases hq : cfg.realFailUnlessBlank <;> cases buf <;> simp_all
+        obtain ⟨hq, hb⟩ := hrep'
+        subst hb
+        simp only [List.nil_append] at happ
+        subst happ
+        exact cri_garbage cfg _ c t false sk _ hc (hgar hq).1 (hgar hq).2 hne
+
+/-! ### the element's part, mid-stream: NUMBER (the repaired `RealAggregate` reads NUMBER elements with `ReadNumber`) -/
+
+/-- `ReadNumber` standing anywhere in a stream, in front of a non-blank character (a configuration in which it reports a
+    failed extraction): when nothing is reported, what it took is a text `strtod` converts completely (the tokens of the
+    `integer` and `real` grammars and the lenient forms `.5`, `1e5`) whose denotation converts, then separators; the value
+    is that double, and the stream rests at its end or in front of a delimiter -/
+theorem readNumber_sound (ops : FloatOps F) (cfg : LexCfg) (hcfg : cfg.numberReportsFail = true) (l : List Byte) (c : Byte)
+    (t : List Byte) (sk : Bool) (hc : isSpace c = false)
+    (o : Option F) (s' : IStream) (e : Sev)
+    (h : readNumber ops cfg (some attrDelims) (G l (c :: t) sk) .null = (o, s', e)) (hne : NoErr e) :
+    ∃ tok sp2 d v, c :: t = tok ++ sp2 ++ s'.right ∧ Between cfg sp2 ∧ denoteReal tok = some d ∧
+      ops.ofDecimal d = some v ∧ o = some v ∧ AtDelimOrEnd cfg s'.right := by
+  simp only [readNumber, ws_good0 _ _ _ _ hc, extractFloatText_G _ _ _ _ hc] at h
+  obtain ⟨hwf, happ, hscan⟩ := numSplit_spec l (c :: t)
+  generalize hns : numSplit (c :: t) = ns at hwf happ hscan
+  obtain ⟨f, rest⟩ := ns
+  simp only at hwf happ hscan
+  rw [hscan] at h
+  simp only at h
+  cases hconv : ops.conv f.norm.text with
+  | ok v =>
+    simp only [hconv, IStream.failed, Bool.or_self, Bool.false_and, Sev.warnIf, Bool.false_eq_true, if_false, Prod.mk.injEq] at h
+    obtain ⟨ho, hs, he⟩ := h
+    subst ho hs he
+    have hof : ∃ d, parseFloatText f.text = some d ∧ ops.ofDecimal d = some v := by
+      unfold FloatOps.conv at hconv
+      rw [parse_norm f hwf] at hconv
+      cases hp : parseFloatText f.text with
+      | none => rw [hp] at hconv; cases hconv
+      | some d =>
+        rw [hp] at hconv; simp only at hconv
+        cases ho : ops.ofDecimal d with
+        | none => rw [ho] at hconv; cases hconv
+        | some v' => rw [ho] at hconv; simp at hconv; exact ⟨d, rfl, by rw [ho, hconv]⟩
+    obtain ⟨d, hd1, hd2⟩ := hof
+    have hch := (cri_char cfg { left := f.text.reverse ++ l, right := rest, eof := rest.isEmpty, fail := false, bad := false, skipws := sk } Sev.null rfl).2 hne
+    generalize checkRemainingInput cfg (some attrDelims) { left := f.text.reverse ++ l, right := rest, eof := rest.isEmpty, fail := false, bad := false, skipws := sk } Sev.null = X at hne hch ⊢
+    rcases hch with ⟨heof, hsame⟩ | ⟨heof, sp2, hsp2, hrr, _, hat⟩
+    · simp only at heof
+      have hre : rest = [] := by simpa using heof
+      subst hre
+      refine ⟨f.text, [], d, v, ?_, Between.nil cfg, hd1, hd2, rfl, ?_⟩
+      · rw [hsame]; simp [happ]
+      · rw [hsame]; exact Or.inl rfl
+    · simp only at hrr
+      refine ⟨f.text, sp2, d, v, ?_, hsp2, hd1, hd2, rfl, hat⟩
+      rw [happ, hrr]; simp
+  | invalid =>
+    exfalso
+    simp only [hconv, IStream.setFail, IStream.failed, Bool.or_true, Bool.true_or, hcfg, Bool.not_false, Bool.and_self, Prod.mk.injEq] at h
+    obtain ⟨_, _, he⟩ := h
+    subst he
+    rcases cri_mono cfg _ _ with hm | hm
+    · rw [hm] at hne; exact warnIf_true_err Sev.null hne
+    · exact hm hne
+  | overflow =>
+    exfalso
+    simp only [hconv, IStream.setFail, IStream.failed, Bool.or_true, Bool.true_or, hcfg, Bool.not_false, Bool.and_self, Prod.mk.injEq] at h
+    obtain ⟨_, _, he⟩ := h
+    subst he
+    rcases cri_mono cfg _ _ with hm | hm
+    · rw [hm] at hne; exact warnIf_true_err Sev.null hne
+    · exact hm hne
+
+/-! ### the element's part, mid-stream: entity references (`skipws` on, as it is unless a STRING was read from the stream before) -/
+
+/-- `ReadEntityRef` standing anywhere in a stream whose `skipws` flag is on, in front of a non-blank character (while it does
+    not report a non-reference itself, the character is neither `/` nor a delimiter): when nothing is reported, what it took
+    is `#`, optional blanks, an integer token whose value fits `int` (`#+5` and `# 5` are its leniencies), separators; an
+    instance with that id exists and conforms; the value is that id; the stream rests at its end or in front of a delimiter -/
+theorem readEntityRef_sound (cfg : LexCfg) (lookup : Int → RefLookup) (l : List Byte) (c : Byte) (t : List Byte)
+    (hc : isSpace c = false) (h44 : c ≠ 44) (h41 : c ≠ 41)
+    (hgar : cfg.refReportsNonRef = false → delimAt cfg attrDelims c = false ∧ c ≠ 47)
+    (o : Option Int) (s' : IStream) (e : Sev)
+    (h : readEntityRef cfg lookup (some attrDelims) (G l (c :: t) true) .null = (o, s', e)) (hne : NoErr e) :
+    ∃ spx tok sp2, c :: t = 35 :: (spx ++ tok ++ sp2 ++ s'.right) ∧ spx.all isSpace = true ∧ Between cfg sp2 ∧
+      isInteger tok = true ∧ intMin ≤ denoteInteger tok ∧ denoteInteger tok ≤ intMax ∧
+      lookup (denoteInteger tok) = .found ∧ o = some (denoteInteger tok) ∧ AtDelimOrEnd cfg s'.right := by
+  simp only [readEntityRef, ws_good0 _ _ _ _ hc, getChar_good _ _ _ hc] at h
+  simp only [Option.getD_some, Option.isSome_some, Bool.and_true] at h
+  by_cases h35 : c = 35
+  · subst h35
+    simp only [beq_self_eq_true, Bool.true_or, if_true] at h
+    have h64 : ((35 : Byte) == 64) = false := by decide
+    simp only [h64, Bool.false_eq_true, if_false] at h
+    obtain ⟨spx, body', hb1, hb2, hb3, hb4⟩ := dropSpaces_split (35 :: l) t
+    rcases hb4 with rfl | ⟨c', t', rfl, hc'⟩
+    · exfalso
+      simp only [List.append_nil] at hb1
+      subst hb1
+      simp only [refTail, extractInt32_blank _ _ hb2, IStream.failed, Bool.or_false, if_true, Prod.mk.injEq] at h
+      obtain ⟨_, _, he⟩ := h
+      subst he
+      rcases cri_mono cfg _ (Sev.null.greater Sev.warning) with hm | hm
+      · rw [hm] at hne; exact greater_warning_err _ hne
+      · exact hm hne
+    · subst hb1
+      simp only [refTail, extractInt32_skip _ _ _ _ hb2 hc', IStream.failed, Bool.or_false] at h
+      obtain ⟨tok, rest, hr, hrest, hs2, hval, _⟩ :=
+        scanInt_split longMin longMax (by decide) (by decide) (spx.reverse ++ 35 :: l) (c' :: t')
+      generalize hsc : scanInt longMin longMax (spx.reverse ++ 35 :: l) (c' :: t') = sc at h hs2 hval
+      obtain ⟨res, l', r'⟩ := sc
+      simp only [Prod.mk.injEq] at hs2
+      obtain ⟨rfl, rfl⟩ := hs2
+      simp only at h hval
+      by_cases hlo : res.value < intMin
+      · exfalso
+        simp only [hlo, if_true, Prod.mk.injEq] at h
+        obtain ⟨_, _, he⟩ := h
+        subst he
+        rcases cri_mono cfg _ (Sev.null.greater Sev.warning) with hm | hm
+        · rw [hm] at hne; exact greater_warning_err _ hne
+        · exact hm hne
+      · by_cases hhi : res.value > intMax
+        · exfalso
+          simp only [hlo, hhi, if_true, if_false, Prod.mk.injEq] at h
+          obtain ⟨_, _, he⟩ := h
+          subst he
+          rcases cri_mono cfg _ (Sev.null.greater Sev.warning) with hm | hm
+          · rw [hm] at hne; exact greater_warning_err _ hne
+          · exact hm hne
+        · simp only [hlo, hhi, if_false] at h
+          cases hf : res.fail with
+          | true =>
+            exfalso
+            simp only [hf, if_true, Prod.mk.injEq] at h
+            obtain ⟨_, _, he⟩ := h
+            subst he
+            rcases cri_mono cfg _ (Sev.null.greater Sev.warning) with hm | hm
+            · rw [hm] at hne; exact greater_warning_err _ hne
+            · exact hm hne
+          | false =>
+            simp only [hf, Bool.false_eq_true, if_false, Option.getD_some] at h
+            obtain ⟨htok, hv, _, _⟩ := hval hf
+            cases hlk : lookup res.value with
+            | found =>
+              simp only [hlk, Prod.mk.injEq] at h
+              obtain ⟨ho, hs, he⟩ := h
+              subst ho hs he
+              have hch := (cri_char cfg { left := tok.reverse ++ (spx.reverse ++ 35 :: l), right := r', eof := r'.isEmpty, fail := false, bad := false, skipws := true } Sev.null rfl).2 hne
+              generalize checkRemainingInput cfg (some attrDelims) { left := tok.reverse ++ (spx.reverse ++ 35 :: l), right := r', eof := r'.isEmpty, fail := false, bad := false, skipws := true } Sev.null = X at hne hch ⊢
+              rw [hv] at hlk hlo hhi
+              rcases hch with ⟨heof, hsame⟩ | ⟨heof, sp2, hsp2, hrr, _, hat⟩
+              · simp only at heof
+                have hre : r' = [] := by simpa using heof
+                subst hre
+                refine ⟨spx, tok, [], ?_, hb2, Between.nil cfg, htok, by omega, by omega, hlk, by rw [hv], ?_⟩
+                · rw [hsame]; simp [hr]
+                · rw [hsame]; exact Or.inl rfl
+              · simp only at hrr
+                refine ⟨spx, tok, sp2, ?_, hb2, hsp2, htok, by omega, by omega, hlk, by rw [hv], hat⟩
+                rw [hr, hrr]; simp
+            | wrongType =>
+              exfalso
+              simp only [hlk, Prod.mk.injEq] at h
+              obtain ⟨_, _, he⟩ := h
+              subst he
+              exact greater_warning_err _ hne
+            | missing =>
+              exfalso
+              simp only [hlk, Prod.mk.injEq] at h
+              obtain ⟨_, _, he⟩ := h
+              subst he
+              exact greater_warning_err _ hne
+  · by_cases h64 : c = 64
+    · exfalso
+      subst h64
+      simp only [beq_self_eq_true, Bool.or_true, if_true] at h
+      have := refTail_mono cfg lookup { left := 64 :: l, right := t, eof := false, fail := false, bad := false, skipws := true }
+        (Sev.null.greater Sev.warning) (greater_warning_err _)
+      rw [h] at this
+      exact this hne
+    · exfalso
+      have hno : (c == 35 || c == 64) = false := by simp [h35, h64]
+      have hnd : refNotDelim (some attrDelims) c = true := by
+        simp [refNotDelim, isDelim, attrDelims, h44, h41]
+      simp only [hno, Bool.false_eq_true, if_false, putback_good, hnd, Bool.and_true, Prod.mk.injEq] at h
+      obtain ⟨_, _, he⟩ := h
+      subst he
+      cases hq : cfg.refReportsNonRef with
+      | true =>
+        simp only [hq] at hne
+        rcases cri_mono cfg _ _ with hm | hm
+        · rw [hm] at hne; exact warnIf_true_err Sev.null hne
+        · exact hm hne
+      | false => exact cri_garbage cfg _ c t false true _ hc (hgar hq).1 (hgar hq).2 hne
+
+/-! ### the element's part for every simple kind: one round of the loop -/
+
+/-- the loop's own `CheckRemainingInput` behind a reader that has run its own (INTEGER, REAL, NUMBER, references): nothing
+    worse than INCOMPLETE ⇒ severity NULL, only separators were skipped, the stream rests at its end or a delimiter -/
+theorem second_cri (cfg : LexCfg) (s1 : IStream)
+    (hne : ¬ (checkRemainingInput cfg (some attrDelims) s1 Sev.null).2.toInt < Sev.incomplete.toInt)
+    (hat : AtDelimOrEnd cfg s1.right) :
+    (checkRemainingInput cfg (some attrDelims) s1 Sev.null).2 = .null ∧
+    ∃ sp3, s1.right = sp3 ++ (checkRemainingInput cfg (some attrDelims) s1 Sev.null).1.right ∧ Between cfg sp3 ∧
+      AtDelimOrEnd cfg (checkRemainingInput cfg (some attrDelims) s1 Sev.null).1.right := by
+  have h1 : Sev.incomplete.toInt = 1 := rfl
+  obtain ⟨hkeep, _⟩ := cri_kept cfg s1 Sev.null hne
+  refine ⟨hkeep, ?_⟩
+  by_cases heof : s1.eof = true
+  · have hsame : checkRemainingInput cfg (some attrDelims) s1 Sev.null = (s1, Sev.null) := by
+      simp [checkRemainingInput, heof]
+    rw [hsame]
+    exact ⟨[], by simp, Between.nil _, hat⟩
+  · by_cases hbad : s1.bad = true
+    · exfalso
+      have : (checkRemainingInput cfg (some attrDelims) s1 Sev.null).2 = Sev.null.greater .inputError := by
+        simp [checkRemainingInput, heof, hbad]
+      rw [hkeep] at this
+      revert this; decide
+    · have hb' : s1.bad = false := by simpa using hbad
+      have hne2 : NoErr (checkRemainingInput cfg (some attrDelims) s1 Sev.null).2 := by rw [hkeep]; exact Or.inl rfl
+      rcases (cri_char cfg s1 Sev.null hb').2 hne2 with ⟨hx, _⟩ | ⟨_, sp3, hb3, hrr, _, hat3⟩
+      · exact absurd hx heof
+      · exact ⟨sp3, hrr, hb3, hat3⟩
+
+/-- a reader's severity that starts from NULL and only ever takes `GreaterSeverity`: once the loop's check kept it and it is
+    not worse than INCOMPLETE, it is NULL — given that it is NULL or WARNING-or-worse -/
+theorem sev_null_of_range {e : Sev} (hr : e = .null ∨ e.toInt ≤ 0) (hq : ¬ e.toInt < Sev.incomplete.toInt) : e = .null := by
+  have h1 : Sev.incomplete.toInt = 1 := rfl
+  rcases hr with h | h
+  · exact h
+  · omega
+
+/-- what one round of the loop reduces to behind the token separators (hypothesis `hsA`) when it reports nothing worse than
+    INCOMPLETE: the reader and the loop's check on that stream, the "missing element" test having said no -/
+theorem elemRead_core (env : Env F) (ty : ElemTy) (s : IStream) (l : List Byte) (c : Byte) (t : List Byte) (sk : Bool)
+    (hsA : (if env.cfg.aggrSkipsComments then readTokenSeparator s else s) = G l (c :: t) sk)
+    (e : Sev) (v : Elem F) (s1 : IStream)
+    (h : elemRead env ty s = .ok (e, v, s1)) (hne : ¬ e.toInt < Sev.incomplete.toInt) :
+    elemReadCore env ty (G l (c :: t) sk) = .ok (e, v, s1) := by
+  have h1 : Sev.incomplete.toInt = 1 := rfl
+  unfold elemRead at h
+  rw [hsA] at h
+  have hms : (elemMissing env.cfg (G l (c :: t) sk)).2 = G l (c :: t) sk := by
+    unfold elemMissing
+    split
+    · rw [show (G l (c :: t) sk).peekC = (c, G l (c :: t) sk) from peekC_good l c t sk]
+    · rfl
+  simp only [bind, Except.bind, pure, Except.pure, hms] at h
+  cases hcore : elemReadCore env ty (G l (c :: t) sk) with
+  | error x => rw [hcore] at h; cases h
+  | ok r =>
+    obtain ⟨e', v', s1'⟩ := r
+    rw [hcore] at h
+    simp only [Except.ok.injEq, Prod.mk.injEq] at h
+    obtain ⟨he, hv, hs⟩ := h
+    subst hv hs
+    by_cases hm : (elemMissing env.cfg (G l (c :: t) sk)).1 = true
+    · exfalso
+      rw [hm] at he
+      simp only [if_true] at he
+      have := greater_toInt_le' e' Sev.warning
+      rw [he] at this
+      have h0 : Sev.warning.toInt = 0 := rfl
+      omega
+    · simp only [hm, Bool.false_eq_true, if_false] at he
+      subst he
+      rfl
+
+theorem delimAt_not {cfg : LexCfg} {c : Byte} (hd : delimAt cfg attrDelims c = false) : c ≠ 44 ∧ c ≠ 41 := by
+  have := delimAt_false hd
+  simp [isDelim, attrDelims] at this
+  exact this
+
+/-- REAL (and NUMBER while its elements are read by `ReadReal`): the element is a token of the grammar `real` with its value -/
+theorem elemCore_real_sound (env : Env F) (hcfg : env.lex.realReportsFail = true) (ty : ElemTy)
+    (hty : ty = .real ∨ (ty = .number ∧ env.cfg.numberElemReadsNumber = false))
+    (l : List Byte) (c : Byte) (t : List Byte) (sk : Bool) (hc : isSpace c = false)
+    (hgar : env.lex.realFailUnlessBlank = false → delimAt env.lex attrDelims c = false ∧ c ≠ 47)
+    (e2 : Sev) (v : Elem F) (s2 : IStream)
+    (h : elemReadCore env ty (G l (c :: t) sk) = .ok (e2, v, s2)) (hne : ¬ e2.toInt < Sev.incomplete.toInt) :
+    e2 = .null ∧ ∃ tok sp2 sp3 d x, c :: t = tok ++ sp2 ++ sp3 ++ s2.right ∧ Between env.lex sp2 ∧ Between env.lex sp3 ∧
+      isReal tok = true ∧ denoteReal tok = some d ∧ env.ops.ofDecimal d = some x ∧
+      v = .atom (valueToAtom (realValue env.ops (some x))) ∧ AtDelimOrEnd env.lex s2.right := by
+  have hcore : ∃ o s1 e, readReal env.ops env.lex (some attrDelims) (G l (c :: t) sk) .null = .ok (o, s1, e) ∧
+      (checkRemainingInput env.lex (some attrDelims) s1 e).2 = e2 ∧ v = .atom (valueToAtom (realValue env.ops o)) ∧
+      (checkRemainingInput env.lex (some attrDelims) s1 e).1 = s2 := by
+    unfold elemReadCore at h
+    rcases hty with rfl | ⟨rfl, hn⟩
+    · simp only [scalarNodeRead, bind, Except.bind, pure, Except.pure] at h
+      cases hr : readReal env.ops env.lex (some attrDelims) (G l (c :: t) sk) .null with
+      | overflow => rw [hr] at h; simp [liftOutcome, throw, throwThe, MonadExceptOf.throw] at h
+      | ok r =>
+        obtain ⟨o, s1, e⟩ := r
+        rw [hr] at h
+        simp only [liftOutcome, pure, Except.pure, Except.ok.injEq, Prod.mk.injEq] at h
+        exact ⟨o, s1, e, rfl, h.1, h.2.1.symm, h.2.2⟩
+    · simp only [hn, Bool.false_eq_true, if_false, scalarNodeRead, bind, Except.bind, pure, Except.pure] at h
+      cases hr : readReal env.ops env.lex (some attrDelims) (G l (c :: t) sk) .null with
+      | overflow => rw [hr] at h; simp [liftOutcome, throw, throwThe, MonadExceptOf.throw] at h
+      | ok r =>
+        obtain ⟨o, s1, e⟩ := r
+        rw [hr] at h
+        simp only [liftOutcome, pure, Except.pure, Except.ok.injEq, Prod.mk.injEq] at h
+        exact ⟨o, s1, e, rfl, h.1, h.2.1.symm, h.2.2⟩
+  obtain ⟨o, s1, e, hr, he2, hv, hs2⟩ := hcore
+  subst he2 hs2
+  obtain ⟨hkeep, hq⟩ := cri_kept env.lex s1 e hne
+  -- the severity `ReadReal` returns is NULL or WARNING-or-worse
+  have hrange : e = .null ∨ e.toInt ≤ 0 := by
+    have hw : ∀ x : Sev, x = .null ∨ x = .warning → ((Sev.null.greater x) = .null ∨ (Sev.null.greater x).toInt ≤ 0) := by
+      intro x hx; rcases hx with rfl | rfl <;> decide
+    have hwi : ∀ b : Bool, (Sev.null.warnIf b) = .null ∨ (Sev.null.warnIf b).toInt ≤ 0 := by
+      intro b; cases b <;> decide
+    simp only [readReal, ws_good0 _ _ _ _ hc, IStream.good, Bool.not_false, Bool.and_self, Bool.not_true, Bool.false_eq_true, if_false] at hr
+    have hsevs := realCollect_sev (c :: t)
+    generalize realCollect (c :: t) = rc at hr hsevs
+    obtain ⟨buf, rest, e0⟩ := rc
+    simp only at hr hsevs
+    split at hr
+    · cases hr
+    · split at hr
+      · simp only [Outcome.ok.injEq, Prod.mk.injEq] at hr
+        rw [← hr.2.2]
+        rcases cri_sev env.lex (some attrDelims) _ (Sev.null.greater e0) with hx | hx
+        · rw [hx]; exact hw e0 hsevs
+        · exact Or.inr hx
+      · simp only [Outcome.ok.injEq, Prod.mk.injEq] at hr
+        rw [← hr.2.2]
+        rcases cri_sev env.lex (some attrDelims) _ (Sev.null.warnIf (env.lex.realReportsFail && (env.lex.realFailUnlessBlank || !buf.isEmpty))) with hx | hx
+        · rw [hx]; exact hwi _
+        · exact Or.inr hx
+  have he : e = .null := sev_null_of_range hrange hq
+  subst he
+  obtain ⟨tok, sp2, d, x, hsplit, hb2, htok, hden, hof, ho, hat⟩ :=
+    readReal_sound env.ops env.lex hcfg l c t sk hc hgar o s1 Sev.null hr (Or.inl rfl)
+  obtain ⟨_, sp3, hr3, hb3, hat3⟩ := second_cri env.lex s1 hne hat
+  subst ho
+  exact ⟨hkeep, tok, sp2, sp3, d, x, by rw [hsplit, hr3]; simp, hb2, hb3, htok, hden, hof, hv, hat3⟩
+
+/-- NUMBER once its elements are read by `ReadNumber`: the element is a text `strtod` converts completely, with its value -/
+theorem elemCore_number_sound (env : Env F) (hcfg : env.lex.numberReportsFail = true) (hnum : env.cfg.numberElemReadsNumber = true)
+    (l : List Byte) (c : Byte) (t : List Byte) (sk : Bool) (hc : isSpace c = false)
+    (e2 : Sev) (v : Elem F) (s2 : IStream)
+    (h : elemReadCore env .number (G l (c :: t) sk) = .ok (e2, v, s2)) (hne : ¬ e2.toInt < Sev.incomplete.toInt) :
+    e2 = .null ∧ ∃ tok sp2 sp3 d x, c :: t = tok ++ sp2 ++ sp3 ++ s2.right ∧ Between env.lex sp2 ∧ Between env.lex sp3 ∧
+      denoteReal tok = some d ∧ env.ops.ofDecimal d = some x ∧
+      v = .atom (valueToAtom (realValue env.ops (some x))) ∧ AtDelimOrEnd env.lex s2.right := by
+  unfold elemReadCore at h
+  simp only [hnum, if_true, pure, Except.pure, Except.ok.injEq, Prod.mk.injEq] at h
+  obtain ⟨he2, hv, hs2⟩ := h
+  generalize hR : readNumber env.ops env.lex (some attrDelims) (G l (c :: t) sk) .null = R at he2 hv hs2
+  obtain ⟨o, s1, e⟩ := R
+  simp only at he2 hv hs2
+  subst he2 hs2
+  obtain ⟨hkeep, hq⟩ := cri_kept env.lex s1 e hne
+  have hrange : e = .null ∨ e.toInt ≤ 0 := by
+    have hwi : ∀ b : Bool, (Sev.null.warnIf b) = .null ∨ (Sev.null.warnIf b).toInt ≤ 0 := by
+      intro b; cases b <;> decide
+    simp only [readNumber] at hR
+    simp only [Prod.mk.injEq] at hR
+    rw [← hR.2.2]
+    rcases cri_sev env.lex (some attrDelims) _ _ with hx | hx
+    · rw [hx]; exact hwi _
+    · exact Or.inr hx
+  have he : e = .null := sev_null_of_range hrange hq
+  subst he
+  obtain ⟨tok, sp2, d, x, hsplit, hb2, hden, hof, ho, hat⟩ :=
+    readNumber_sound env.ops env.lex hcfg l c t sk hc o s1 Sev.null hR (Or.inl rfl)
+  obtain ⟨_, sp3, hr3, hb3, hat3⟩ := second_cri env.lex s1 hne hat
+  subst ho
+  exact ⟨hkeep, tok, sp2, sp3, d, x, by rw [hsplit, hr3]; simp, hb2, hb3, hden, hof, hv.symm, hat3⟩
+
+/-- entity references (`skipws` on): the element is `#` id of an existing instance of a conforming type -/
+theorem elemCore_ref_sound (env : Env F) (tg : String) (l : List Byte) (c : Byte) (t : List Byte) (hc : isSpace c = false)
+    (hd : delimAt env.lex attrDelims c = false) (h47 : c ≠ 47)
+    (e2 : Sev) (v : Elem F) (s2 : IStream)
+    (h : elemReadCore env (.entity tg) (G l (c :: t) true) = .ok (e2, v, s2)) (hne : ¬ e2.toInt < Sev.incomplete.toInt) :
+    e2 = .null ∧ ∃ spx tok sp2 sp3, c :: t = 35 :: (spx ++ tok ++ sp2 ++ sp3 ++ s2.right) ∧ spx.all isSpace = true ∧
+      Between env.lex sp2 ∧ Between env.lex sp3 ∧ isInteger tok = true ∧ intMin ≤ denoteInteger tok ∧ denoteInteger tok ≤ intMax ∧
+      refLookup env.lookup tg (denoteInteger tok) = .found ∧ v = .atom (.ref (denoteInteger tok)) ∧
+      AtDelimOrEnd env.lex s2.right := by
+  obtain ⟨h44, h41⟩ := delimAt_not hd
+  unfold elemReadCore at h
+  simp only [scalarNodeRead_entity, bind, Except.bind, pure, Except.pure, Except.ok.injEq, Prod.mk.injEq] at h
+  obtain ⟨he2, hv, hs2⟩ := h
+  generalize hR : readEntityRef env.lex (refLookup env.lookup tg) (some attrDelims) (G l (c :: t) true) .null = R at he2 hv hs2
+  obtain ⟨o, s1, e⟩ := R
+  simp only at he2 hv hs2
+  subst he2 hs2
+  obtain ⟨hkeep, hq⟩ := cri_kept env.lex s1 e hne
+  -- `ReadEntityRef` never answers INCOMPLETE: NULL or WARNING-or-worse
+  have hrange : e = .null ∨ e.toInt ≤ 0 := by
+    have hg : ∀ (x y : Sev), (x = .null ∨ x.toInt ≤ 0) → (y.toInt ≤ 0) → ((x.greater y) = .null ∨ (x.greater y).toInt ≤ 0) := by
+      intro x y _ hy; right; have := greater_toInt_le' x y; omega
+    have hwi : ∀ (x : Sev) (b : Bool), (x = .null ∨ x.toInt ≤ 0) → ((x.warnIf b) = .null ∨ (x.warnIf b).toInt ≤ 0) := by
+      intro x b hx
+      cases b with
+      | false => simpa [Sev.warnIf] using hx
+      | true => simpa [Sev.warnIf] using hg x Sev.warning hx (by decide)
+    have hcri : ∀ (s : IStream) (x : Sev), (x = .null ∨ x.toInt ≤ 0) →
+        ((checkRemainingInput env.lex (some attrDelims) s x).2 = .null ∨ (checkRemainingInput env.lex (some attrDelims) s x).2.toInt ≤ 0) := by
+      intro s x hx
+      rcases cri_sev env.lex (some attrDelims) s x with h' | h'
+      · rw [h']; exact hx
+      · exact Or.inr h'
+    have hw0 : (Sev.null.greater Sev.warning) = .null ∨ (Sev.null.greater Sev.warning).toInt ≤ 0 := by decide
+    simp only [readEntityRef] at hR
+    split at hR
+    · -- `#` / `@`
+      simp only [refTail] at hR
+      split at hR
+      · simp only [Prod.mk.injEq] at hR
+        rw [← hR.2.2]
+        exact hcri _ _ (hg _ _ (by split <;> first | exact hw0 | exact Or.inl rfl) (by decide))
+      · split at hR <;>
+        · simp only [Prod.mk.injEq] at hR
+          rw [← hR.2.2]
+          first
+            | exact hcri _ _ (by split <;> first | exact hw0 | exact Or.inl rfl)
+            | exact hg _ _ (hcri _ _ (by split <;> first | exact hw0 | exact Or.inl rfl)) (by decide)
+    · simp only [Prod.mk.injEq] at hR
+      rw [← hR.2.2]
+      exact hcri _ _ (hwi _ _ (Or.inl rfl))
+  have he : e = .null := sev_null_of_range hrange hq
+  subst he
+  obtain ⟨spx, tok, sp2, hsplit, hsx, hb2, htok, hlo, hhi, hfound, ho, hat⟩ :=
+    readEntityRef_sound env.lex (refLookup env.lookup tg) l c t hc h44 h41 (fun _ => ⟨hd, h47⟩) o s1 Sev.null hR (Or.inl rfl)
+  obtain ⟨_, sp3, hr3, hb3, hat3⟩ := second_cri env.lex s1 hne hat
+  subst ho
+  refine ⟨hkeep, spx, tok, sp2, sp3, ?_, hsx, hb2, hb3, htok, hlo, hhi, hfound, hv.symm, hat3⟩
+  rw [hsplit, hr3]; simp
+
+/-- STRING: the element is a literal closed by the automaton of `GetLiteralStr`, the value is the literal -/
+theorem elemCore_string_sound (env : Env F) (l : List Byte) (c : Byte) (t : List Byte) (sk : Bool) (hc : isSpace c = false)
+    (hd : delimAt env.lex attrDelims c = false) (h47 : c ≠ 47)
+    (e2 : Sev) (v : Elem F) (s2 : IStream)
+    (h : elemReadCore env .string (G l (c :: t) sk) = .ok (e2, v, s2)) (hne : ¬ e2.toInt < Sev.incomplete.toInt) :
+    e2 = .null ∧ ∃ tok sp3, c :: t = tok ++ sp3 ++ s2.right ∧ isStringLenient tok = true ∧ Between env.lex sp3 ∧
+      v = .atom (.str tok) ∧ AtDelimOrEnd env.lex s2.right := by
+  unfold elemReadCore at h
+  simp only [scalarNodeRead_string, bind, Except.bind, pure, Except.pure, Except.ok.injEq, Prod.mk.injEq] at h
+  obtain ⟨he2, hv, hs2⟩ := h
+  subst he2 hs2
+  obtain ⟨hnull, tok, sp3, hsplit, hlen, hb3, htok, hat⟩ := string_round_sound env.lex l c t sk hc hd h47 hne
+  have hne0 : tok.isEmpty = false := by
+    cases tok with
+    | nil => simp [isStringLenient] at hlen
+    | cons _ _ => rfl
+  refine ⟨hnull, tok, sp3, hsplit, hlen, hb3, ?_, hat⟩
+  rw [← hv, htok, hne0]; simp
+
+/-- BINARY: the element is `"` hexadecimal digits `"`, the value its digits -/
+theorem elemCore_binary_sound (env : Env F) (hcfg : env.lex.binaryRejectsEmpty = true) (l : List Byte) (c : Byte) (t : List Byte)
+    (sk : Bool) (hc : isSpace c = false) (e2 : Sev) (v : Elem F) (s2 : IStream)
+    (h : elemReadCore env .binary (G l (c :: t) sk) = .ok (e2, v, s2)) (hne : ¬ e2.toInt < Sev.incomplete.toInt) :
+    e2 = .null ∧ ∃ hex sp3, c :: t = 34 :: (hex ++ 34 :: (sp3 ++ s2.right)) ∧ hex ≠ [] ∧ hex.all isXDigit = true ∧
+      Between env.lex sp3 ∧ v = .atom (.bin hex) ∧ AtDelimOrEnd env.lex s2.right := by
+  unfold elemReadCore at h
+  simp only [scalarNodeRead_binary, bind, Except.bind, pure, Except.pure, Except.ok.injEq, Prod.mk.injEq] at h
+  obtain ⟨he2, hv, hs2⟩ := h
+  subst he2 hs2
+  obtain ⟨hnull, hex, sp3, hsplit, hx1, hx2, hb3, hval, hat⟩ := binary_round_sound env.lex hcfg l c t sk hc hne
+  have hne0 : hex.isEmpty = false := by
+    cases hex with
+    | nil => exact absurd rfl hx1
+    | cons _ _ => rfl
+  refine ⟨hnull, hex, sp3, hsplit, hx1, hx2, hb3, ?_, hat⟩
+  rw [← hv, hval, hne0]; simp
+
+/-- BOOLEAN / LOGICAL / ENUMERATION: the element is `.` name `.` of a declared item, the value that item -/
+theorem elemCore_enum_sound (env : Env F) (ty : ElemTy) (het : EnumTy ty) (l : List Byte) (c : Byte) (t : List Byte) (sk : Bool)
+    (hc : isSpace c = false) (h44 : c ≠ 44) (h41 : c ≠ 41) (e2 : Sev) (v : Elem F) (s2 : IStream)
+    (h : elemReadCore env ty (G l (c :: t) sk) = .ok (e2, v, s2)) (hne : ¬ e2.toInt < Sev.incomplete.toInt) :
+    e2 = .null ∧ ∃ name i sp3, c :: t = 46 :: (name ++ 46 :: (sp3 ++ s2.right)) ∧ name ≠ [] ∧ name.all pw = true ∧
+      findName (enumKindOf ty).table (name.map toUpper) = some i ∧
+      (env.lex.logicalRejectsUnset = true → (enumKindOf ty).isUnsetIdx i = false) ∧ Between env.lex sp3 ∧
+      v = .atom (valueToAtom (enumValue (enumKindOf ty) (some i) : Value F)) ∧ AtDelimOrEnd env.lex s2.right := by
+  have hcore : (checkRemainingInput env.lex (some attrDelims) (enumRead env.lex (enumKindOf ty) false (G l (c :: t) sk) .null).2.1
+        (enumRead env.lex (enumKindOf ty) false (G l (c :: t) sk) .null).2.2).2 = e2 ∧
+      v = .atom (valueToAtom (enumValue (enumKindOf ty) (enumRead env.lex (enumKindOf ty) false (G l (c :: t) sk) .null).1 : Value F)) ∧
+      (checkRemainingInput env.lex (some attrDelims) (enumRead env.lex (enumKindOf ty) false (G l (c :: t) sk) .null).2.1
+        (enumRead env.lex (enumKindOf ty) false (G l (c :: t) sk) .null).2.2).1 = s2 := by
+    unfold elemReadCore at h
+    rcases het with rfl | rfl | ⟨items, rfl⟩ <;>
+    · simp only [scalarNodeRead, enumKindOf, bind, Except.bind, pure, Except.pure, Except.ok.injEq, Prod.mk.injEq] at h ⊢
+      exact ⟨h.1, h.2.1.symm, h.2.2⟩
+  obtain ⟨he2, hv, hs2⟩ := hcore
+  subst he2 hs2
+  obtain ⟨hnull, name, i, sp3, hsplit, hn1, hn2, hfind, hset, hb3, hval, hat⟩ :=
+    enum_round_sound env.lex (enumKindOf ty) l c t sk hc h44 h41 hne
+  refine ⟨hnull, name, i, sp3, hsplit, hn1, hn2, hfind, hset, hb3, ?_, hat⟩
+  rw [hv, hval]
+
 end StepModel.P21.AggrLemmas
